@@ -1,6 +1,7 @@
 (* C08 (structural part) property theorems: statements only; every proof is [exact lemma]. *)
 From Gv Require Import C08.Model C08.Spec C08.ProofsSpec C08.ProofsSort C08.ProofsWaves
-  C08.ProofsOrganize C08.ProofsMember C08.ProofsMulti C08.ProofsExamples C08.ProofsComplete.
+  C08.ProofsOrganize C08.ProofsMember C08.ProofsMulti C08.ProofsExamples C08.ProofsComplete
+  C08.ModelPaths C08.SpecPaths C08.ProofsPaths.
 From Coq Require Import List Arith Bool Permutation Sorted.
 Import ListNotations.
 
@@ -123,3 +124,106 @@ Print Assumptions c08_plain_check_sound.
 Theorem c08_executions_exist : forall t, lin t (run_lr t) /\ lin t (run_rl t).
 Proof. exact executions_exist. Qed.
 Print Assumptions c08_executions_exist.
+
+(* ---- the stage that completes the dependency relation (addMissingNestedDependencies) and the
+   data-flow relation: ModelPaths.v / SpecPaths.v ---- *)
+
+(* (6a) what the stage does, exactly: positions, ids, paths and merge attributes are kept; a fetch
+   that is a root or has a declared dependency is untouched; a nested fetch without declared
+   dependencies receives the ids of the OTHER fetches (by position) whose provided path
+   (ResponsePath + "." + MergePath, string level) is a string prefix of its response path, in
+   list order *)
+Theorem c08_add_missing_spec :
+  forall l1 f l2,
+    length (add_missing (l1 ++ f :: l2)) = length (l1 ++ f :: l2) /\
+    exists f', nth_error (add_missing (l1 ++ f :: l2)) (length l1) = Some f' /\
+      fid (pf f') = fid (pf f) /\ fsrc (pf f') = fsrc (pf f) /\ fmerged (pf f') = fmerged (pf f) /\
+      prp f' = prp f /\ pmp f' = pmp f /\
+      (eligible f = false -> f' = f) /\
+      (eligible f = true ->
+       fdeps (pf f') = map (fun g => fid (pf g)) (filter (fun g => provides g f) (l1 ++ l2))).
+Proof. exact add_missing_spec_proof. Qed.
+Print Assumptions c08_add_missing_spec.
+
+(* (6b) the string-prefix test of the stage covers the segment-wise relation "g merges its result
+   at the object f is prepared from, or above it": no such provider is ever missed *)
+Theorem c08_prefix_test_covers_parents :
+  forall g f, (forall seg, In seg (prp g) -> seg <> []) ->
+  writes_above g f -> provides g f = true.
+Proof. exact prefix_test_covers_parents. Qed.
+Print Assumptions c08_prefix_test_covers_parents.
+
+(* (6c) "the string test IS the segment-wise relation" is false: "a.b" is a string prefix of
+   "a.bc", so a fetch nested at a.bc also waits for the fetch that provides a.b -- an additional
+   edge (it costs parallelism, it cannot make a fetch start early) *)
+Theorem c08_prefix_test_exact_refuted :
+  exists g f, (forall seg, In seg (prp g ++ pmp g ++ prp f) -> seg <> []) /\
+              eligible f = true /\ provides g f = true /\ ~ writes_above g f.
+Proof. exact prefix_test_not_exact. Qed.
+Print Assumptions c08_prefix_test_exact_refuted.
+
+(* (6d) the completed relation stays acyclic when providers precede dependants: no declared
+   dependency points at a fetch with a longer response path (the added edges always point at a
+   strictly shorter one) *)
+Theorem c08_completion_keeps_acyclic :
+  forall pl, unique_ids (declared pl) -> acyclic (declared pl) -> path_monotone pl ->
+  acyclic (completed pl).
+Proof. exact completion_keeps_acyclic_proof. Qed.
+Print Assumptions c08_completion_keeps_acyclic.
+
+(* (7) the whole pipeline (complete, then organise in any configuration) against the DATA-FLOW
+   relation: every execution of the tree merges the node holding g before it prepares the node
+   holding f whenever f declares g OR g writes above f's response path; every planned fetch is a
+   member of exactly one node, every node runs once.  [covers]: for a fetch WITH declared
+   dependencies the planner is responsible (every writer above is among its transitive
+   dependencies); for every other nested fetch the stage is, by (6a) and (6b). *)
+Theorem c08_pipeline_respects_dataflow :
+  forall sched multi trigger pl t,
+  acyclic (completed pl) -> unique_ids (declared pl) -> plain (declared pl) ->
+  segments_ok pl -> covers pl ->
+  pipeline sched multi trigger pl = Done t ->
+  member_respects t (declared pl) /\ members_once t (declared pl) /\
+  member_respects t (completed pl) /\ reads_respected t pl.
+Proof. exact pipeline_respects_dataflow_proof. Qed.
+Print Assumptions c08_pipeline_respects_dataflow.
+
+(* (7a) without any hypothesis on what the planner declared: declared dependencies are respected
+   and every fetch the planner left WITHOUT dependencies is sequenced after every fetch that
+   writes above its response path *)
+Theorem c08_pipeline_completes_reads :
+  forall sched multi trigger pl t,
+  acyclic (completed pl) -> unique_ids (declared pl) -> plain (declared pl) ->
+  segments_ok pl ->
+  pipeline sched multi trigger pl = Done t ->
+  member_respects t (declared pl) /\ members_once t (declared pl) /\ stage_reads_respected t pl.
+Proof. exact pipeline_completes_reads_proof. Qed.
+Print Assumptions c08_pipeline_completes_reads.
+
+(* (7') without the MultiFetch stage, in plain terms *)
+Theorem c08_pipeline_reads_single :
+  forall sched trigger pl t,
+  acyclic (completed pl) -> unique_ids (declared pl) -> plain (declared pl) ->
+  segments_ok pl -> covers pl ->
+  pipeline sched false trigger pl = Done t ->
+  Permutation (tree_fetches t) (completed pl) /\
+  forall s, lin t s -> forall f g, In f pl -> In g pl -> fid (pf g) <> fid (pf f) ->
+    (In (fid (pf g)) (fdeps (pf f)) \/ writes_above g f) ->
+    before (Merge (fid (pf g))) (Prepare (fid (pf f))) s.
+Proof. exact pipeline_reads_single_proof. Qed.
+Print Assumptions c08_pipeline_reads_single.
+
+(* the path checker run on the implementation's trees, and the plan-side checks, are sound *)
+Theorem c08_dataflow_checker_sound :
+  forall sel t pl, NoDup (ids (declared pl)) -> members_once_b t (declared pl) = true ->
+  reads_b_on sel t pl = true ->
+  reads_respected_on sel t pl /\ members_once t (declared pl).
+Proof. exact reads_b_on_sound. Qed.
+Print Assumptions c08_dataflow_checker_sound.
+
+Theorem c08_path_checks_sound :
+  forall pl, (segments_ok_b pl = true -> segments_ok pl) /\ (covers_b pl = true -> covers pl) /\
+             (forall g f, writes_above_b g f = true <-> writes_above g f).
+Proof.
+  intros pl. split; [apply segments_ok_b_sound | split; [apply covers_b_sound | apply writes_above_b_spec]].
+Qed.
+Print Assumptions c08_path_checks_sound.
